@@ -89,7 +89,7 @@ CLAIMED = {
         "already-monotone input unchanged, idempotence, exact commutation with reversal (exceptions included), positive affine equivariance, weight-scale invariance, None = unit weights, "
         "and integer weights = repeated observations (mean, expectile; values). Tie: skeleton+leaves of pava/gpava/isotonic_regression/quantile_lower/quantile_upper and correspondence over all functionals "
         "with exact block-vector comparison on the dyadic-exact stream. Additionally a bit-exact binary64 twin of the mean path (model/PavaFloat.v, Coq primitive floats) satisfies the block contract for EVERY float input "
-        "(NaN, infinities, overflow included) and is compared bit for bit with the implementation.",
+        "(NaN, infinities, overflow included) and is compared bit for bit with the implementation; the same for the quantile / median path (model/GpavaQFloat.v, C12_float_quantile_*).",
    note="Partial: 'inputs are never modified' is observed (byte comparison of the caller's arrays around every call), not proved; replication is proved for the values only. Equalities of values are Qeq. "
         "All theorems are closed under the global context except replication (standard real-number axioms) and the three monotonicity theorems of the binary64 twin "
         "(C12_float_monotone*: the standard library's FloatAxioms.eqb_spec / ltb_spec / leb_spec; primitive float operations are kernel primitives).",
@@ -151,7 +151,9 @@ CLAIMED = {
         "upper quantile per block, running minimum, midpoint): totality, monotonicity, pinball-optimality against all real monotone sequences, range within data, "
         "flatness of the block loss between lower and upper quantile, result >= lower solution. Tie: skeleton+leaves of gpava/quantile_lower/quantile_upper/isotonic_regression and correspondence.",
    note="'Between the smallest and the largest optimal solution' is proved in full (the lower-quantile GPAVA solution is the pointwise smallest, the mirrored one the pointwise largest minimiser; the result lies between). "
-        "np.quantile(method='inverted_cdf') is modelled by its definition and compared with numpy on every run. Float-unsafe (level, n) pairs are judged by loss, not by value.",
+        "np.quantile(method='inverted_cdf') is modelled by its definition and compared with numpy on every run. Float-unsafe (level, n) pairs are judged by loss, not by value. "
+        "Additionally a bit-exact binary64 twin of the whole quantile / median path (model/GpavaQFloat.v, Coq primitive floats, numpy's float index computation included) is compared with the implementation bit for bit "
+        "and satisfies structural theorems for every float input (C02_float_*).",
    technique="Coq proof (GPAVA certificate, pinball sub-gradient instance) + skeleton/leaf translation + vm_compute correspondence", ref="4 C02"),
  "C03": dict(
    text="Machine-checked proof (Coq) about the model of isotonic_regression(functional='expectile'): totality, monotonicity, optimality and uniqueness for the asymmetric squared loss "
